@@ -299,7 +299,8 @@ pub fn cases<T: KS + Send + Sync>(out: &mut Out, rng0: &mut Rng, tier: &Tier) {
             match guard(std::panic::AssertUnwindSafe(move || compress_graph(stranded, &sp2, base.finish(), None).base)) {
                 Some(x) => x,
                 None => {
-                    out.case("chk.c03.graph_ok", l(vec![]), V::Bot);
+                    // compress_graph panicked on the finished graph of a constructed table (C09's theorems: it cannot)
+                    out.case("s.no_panic", l(vec![nu(k), nu(stranded as usize), nu(out.lines as usize)]), V::Bot);
                     continue;
                 }
             }
